@@ -286,6 +286,21 @@ def r4(ctx, fs):
             ctx.instance(rid, [field, f.name], {'field': field, 'writer': fid})
             if f.name not in allowed:
                 ctx.finding(rid, fid, field, '%s is modified by %s, outside the tableau discipline' % (field, f.name), node=sts[0].node)
+    # rows enter the tableau only through new_row (which watches every variable): a row built elsewhere is invisible to update()/pivot()
+    for fid, sts in sorted(effects.field_writers(fs, LRA + 'tableau').items()):
+        for st in sts:
+            if st.how != 'erase' and st.how != 'clear':
+                g = fs.fns[fid]
+                ctx.instance(rid, ['row-entry', g.name, st.how], {'writer': fid, 'how': st.how})
+                if g.name != LRA + 'new_row':
+                    ctx.finding(rid, fid, 'row-entry', '%s adds a row to the tableau without new_row: the row is in no watch list, so update()/pivot_and_update() never adjust its basic variable '
+                                'and the reported values stop satisfying its defining equation' % short(g.name), node=st.node)
+    for g in fs.fns.values():
+        if g.body is None or g.name == LRA + 'new_row':
+            continue
+        for n in g.nodes():
+            if n.get('k') == 'CXXNewExpr' and (n.get('t') or '').replace('class ', '') in ('smt::row *', 'row *'):
+                ctx.finding(rid, g.id, 'row-new', '%s allocates a tableau row outside new_row' % short(g.name), node=n)
     f = fs.fn(LRA + 'new_row')
     env = LocalEnv(f)
     env.param_roles(['x', 'l'])
